@@ -33,6 +33,12 @@ def generate(G):
              skeleton={"stack": "Model[Dense(%d->%d)]" % (i, o), "input": inp_shape, "cost": cost, "iterations": iters,
                        "sequence": "Model::forward -> Model::backward -> Model::update"}, domains="D2; lr in {0,0.5,1,2}")
 
+    for two in (False, True):
+        G.ob("c14_model_update_only_%d" % (2 if two else 1), "C14", "model_update", "c14::model_update_only(s, %s)" % ("true" if two else "false"),
+             unwind=8, tier="experimental", heavy=True,
+             skeleton={"what": "Model::update alone on layers whose parameters hold harness-supplied gradients", "layers": 2 if two else 1},
+             domains="values, gradients D4; lr in {0,0.5,1,2}")
+
     def conv(inp, filt, stride, iters, tier):
         id = "c14_conv_%s_%s_i%d" % (G.sname(inp), G.sname(filt), iters)
         G.ob(id, "C14", "conv_loop", "c14::conv_loop(s, %s, (%d, %d, %d, %d), (%d, %d), %d)" % (
